@@ -97,6 +97,12 @@ PROPS = {
         "shards": {"quick": 16, "thorough": 16}, "timeout": {"quick": 800, "thorough": 14000},
         "floors": {"quick": {"occupancy_comparisons": 40, "attach_detach_cycles": 1500}, "thorough": {"occupancy_comparisons": 700}},
     },
+    "C15": {
+        "test": "TestVerif_C15", "level": "fault_enumeration",
+        "rule": "fault enumeration on UP4: 6 scenarios (establish A; establish B sharing peer/application with A; modify A to another gNB; delete A; establish C; delete all - in several variants with 0-3 QERs), each first run fault-free to count its W Write RPCs, then once per k=1..W with the k-th Write RPC failing (INTERNAL / UNAVAILABLE / RESOURCE_EXHAUSTED: one code per k in quick, all three in thorough), the scenario being continued after the fault and followed by two more sessions so that a wrongly recycled id is handed out again; plus random multi-fault runs; after every step: identifiers carried by the entries at the harness switch must be exclusive (counter index, app/session meter cell, tunnel-peer id, application id), the pools read in-package must be duplicate-free and disjoint from the ids in use, and a request that saw an injected failure must not be accepted; distinct = <scenario, k, code>",
+        "shards": {"quick": 16, "thorough": 16}, "timeout": {"quick": 800, "thorough": 14000},
+        "floors": {"quick": {"requests_with_injected_failure": 150, "switch_states_checked": 2000}, "thorough": {"requests_with_injected_failure": 600}},
+    },
     "C10": {
         "test": "TestVerif_C10", "level": "exploration",
         "rule": "scenario = {0..n associations (some >100)} x {0-3 sessions} x trigger per association {release, silence->read timeout(+heartbeat failure), unanswered heartbeats, live} x requests in flight x datapath reply delay x PFCPIface.Stop() at a drawn offset (+-3.5 ms around the coinciding triggers), fresh agent per scenario, plus a 'refresh' family (association ends without Stop, same address:port associates afresh, bystander association checked); distinct = distinct interleaving signatures (datapath, heartbeat on/off, delay, stop offset in ms, multiset of per-association <trigger, order relative to Stop, release answered?, sessions>)",
